@@ -55,7 +55,12 @@ func (p ShortMessage) WriteTo(w io.Writer) (n int64, err error) {
 	}
 	buf.Write(p.Message)
 	data := buf.Bytes()
-	data[start] = byte(len(data) - 1 - start)
+	length := len(data) - 1 - start
+	if length > 0xFF {
+		err = ErrShortMessageTooLarge
+		return
+	}
+	data[start] = byte(length)
 	return buf.WriteTo(w)
 }
 
